@@ -1,4 +1,5 @@
 import OmplModel.Proofs.PdfSum
+import OmplModel.Proofs.PdfLeaves
 /-! The selection rule of `sample` (exact arithmetic, ordered commutative ring). -/
 set_option linter.unusedSectionVars false
 set_option linter.unusedSimpArgs false
@@ -111,9 +112,6 @@ theorem dinv_walk : ∀ (rs : List (Array α)) (c : Array α) (X : α) (tot : α
     simp only [walk]
     exact dinv_stepDown c p _ _ X hc.1 ih
 
-/-- row 0 of the tree: the current weights in element order -/
-def leaves (s : Pdf α) : Array α := s.tree.head?.getD #[]
-
 theorem pre_nonneg (c : Array α) (hnn : ∀ k, 0 ≤ cell c k) : ∀ k, 0 ≤ pre c k
   | 0 => le_refl _
   | k + 1 => by simp only [pre]; linarith [pre_nonneg c hnn k, hnn k]
@@ -132,10 +130,10 @@ theorem pre_mono (c : Array α) (hnn : ∀ k, 0 ≤ cell c k) : ∀ a b, a ≤ b
 /-- the selection rule: for `r ∈ [0,1]` the fixed `sample` returns the element at a position `i` with
 `prefix i < r·total ≤ prefix (i+1)` (the first clause only for `i > 0`). -/
 theorem sample_interval (s : Pdf α) (r : α) (hsh : ShapeInv s) (hsum : SumInv s) (hn : 0 < s.data.size)
-    (h0 : 0 ≤ r) (h1 : r ≤ 1) (hnn : ∀ k, 0 ≤ cell (leaves s) k) :
+    (h0 : 0 ≤ r) (h1 : r ≤ 1) (hnn : ∀ k, 0 ≤ cell (row0 s) k) :
     ∃ i, ∃ hi : i < s.data.size, s.sample r = .ok s.data[i] ∧
-      r * pre (leaves s) s.data.size ≤ pre (leaves s) (i + 1) ∧
-      (0 < i → pre (leaves s) i < r * pre (leaves s) s.data.size) := by
+      r * pre (row0 s) s.data.size ≤ pre (row0 s) (i + 1) ∧
+      (0 < i → pre (row0 s) i < r * pre (row0 s) s.data.size) := by
   unfold ShapeInv at hsh
   unfold SumInv at hsum
   cases ht : s.tree with
@@ -145,7 +143,7 @@ theorem sample_interval (s : Pdf α) (r : α) (hsh : ShapeInv s) (hsum : SumInv 
     omega
   | cons c rs =>
     rw [ht] at hsh hsum
-    have hl : leaves s = c := by simp [leaves, ht]
+    have hl : row0 s = c := by simp [row0, ht]
     rw [hl] at hnn ⊢
     have hcs : c.size = s.data.size := by
       rw [sizes_cons, shapeSizes_cons] at hsh; exact hsh.1
@@ -174,6 +172,95 @@ theorem sample_interval (s : Pdf α) (r : α) (hsh : ShapeInv s) (hsum : SumInv 
       obtain ⟨a, b, c'⟩ := hd
       have := c' hpos
       linarith
+
+/-! ### the stored weights stay non-negative (needed for "least index") -/
+
+def LeavesNonneg (s : Pdf α) : Prop := ∀ k, 0 ≤ cell (row0 s) k
+
+/-- the API contract on weights: `add` rejects negatives itself; `update` must be given `w ≥ 0`. -/
+def OpOk : Op α → Prop
+  | .update _ w => 0 ≤ w
+  | _ => True
+
+theorem cell_setIfInBounds (r : Array α) (i : Nat) (w : α) (k : Nat) :
+    cell (r.setIfInBounds i w) k = if k = i ∧ i < r.size then w else cell r k := by
+  unfold cell
+  rw [Array.getElem?_setIfInBounds]
+  by_cases e : i = k
+  · subst e
+    by_cases h : i < r.size
+    · simp [h]
+    · simp [h]
+  · have : ¬ k = i := fun x => e x.symm
+    simp [e, this]
+
+theorem nonneg_swapIfInBounds (r : Array α) (i j : Nat) (h : ∀ k, 0 ≤ cell r k) :
+    ∀ k, 0 ≤ cell (r.swapIfInBounds i j) k := by
+  intro k
+  unfold Array.swapIfInBounds
+  split
+  · split
+    · rw [cell_swap]; split
+      · exact h _
+      · split <;> exact h _
+    · exact h k
+  · exact h k
+
+theorem nonneg_pop (r : Array α) (h : ∀ k, 0 ≤ cell r k) : ∀ k, 0 ≤ cell r.pop k := by
+  intro k; rw [cell_pop]; split
+  · exact le_refl _
+  · exact h k
+
+theorem leavesNonneg_empty : LeavesNonneg (Pdf.empty : Pdf α) := by
+  intro k; simp [row0, Pdf.empty, cell]
+
+theorem leavesNonneg_step (s : Pdf α) (op : Op α) (hsh : ShapeInv s) (hn : LeavesNonneg s) (hop : OpOk op) :
+    LeavesNonneg (s.step op) := by
+  cases op with
+  | add w =>
+    simp only [Pdf.step]
+    by_cases hw : WOps.lt w (WOps.zero : α) = true
+    · have : s.add w = s := by unfold Pdf.add; simp [hw]
+      rw [this]; exact hn
+    · have hw' : WOps.lt w (WOps.zero : α) = false := by simpa using hw
+      intro k
+      rw [row0_add s w hsh hw', cell_push]
+      split
+      · have : ¬ w < 0 := by simpa [WOps.lt, WOps.zero] using hw'
+        exact not_lt.mp this
+      · exact hn k
+  | update h w =>
+    simp only [Pdf.step]
+    cases hi : s.idx h with
+    | none => have : s.update h w = s := by unfold Pdf.update; simp [hi]
+              rw [this]; exact hn
+    | some i =>
+      by_cases hd : i < s.data.size
+      · intro k
+        rw [row0_update s h i w hsh hi hd, cell_setIfInBounds]
+        split
+        · exact hop
+        · exact hn k
+      · have : s.update h w = s := by
+          unfold Pdf.update; simp only [hi]; rw [if_pos (by omega)]
+        rw [this]; exact hn
+  | remove h =>
+    simp only [Pdf.step]
+    cases hi : s.idx h with
+    | none => have : s.remove h = s := by unfold Pdf.remove; simp [hi]
+              rw [this]; exact hn
+    | some i =>
+      by_cases hd : i < s.data.size
+      · unfold LeavesNonneg
+        rw [row0_remove s h i hsh hi hd]
+        split
+        · exact nonneg_pop _ hn
+        · exact nonneg_pop _ (nonneg_swapIfInBounds _ _ _ hn)
+      · have : s.remove h = s := by
+          unfold Pdf.remove; simp only [hi, hd, dite_false]
+        rw [this]; exact hn
+  | clear => intro k; simp [Pdf.step, Pdf.clear, row0, cell]
+  | sample r => exact hn
 
 end ring
 end OmplModel.Pdf
